@@ -65,7 +65,7 @@ def run(ctx):
                 else:
                     for k_, fr in run_.items():
                         if k_.startswith("file_") and not fr.get("eq"):
-                            rep("long-literal-in-file", "literal %r preceded by %d letters" + (" and %r across the block boundary" % fr["w"] if fr.get("w") else "") + ", read from a file: value %s, expected %r after the letters" % (run_["src"], fr["pad"], fr.get("got_tail", fr.get("msg")), run_["want"]))
+                            rep("long-literal-in-file", "literal %r preceded by %d letters%s, read from a file: value %s, expected %r after the letters" % (run_["src"], fr["pad"], (" and %r across the block boundary" % fr["w"]) if fr.get("w") else "", fr.get("got_tail", fr.get("msg")), run_["want"]))
                             break
             else:
                 if run_["status"] == "ok":
